@@ -1045,14 +1045,14 @@ def check(run):
     # 1. every class alone over its argument domain
     for e in exhaustive_leaf_cases(rng):
         add(e, "alone")
-    per_class = 400 if thorough else 26
+    per_class = 400 if thorough else 20
     for cls in ALL_CLASSES:
         for i in range(per_class):
             add(g.gen(1, rng.random() < 0.5 and cls not in DocGen.ENDLESS_ONLY, "any", cls), "alone")
     for i in range(per_class * 3):
         add(g.leaf(rng.random() < 0.6, "any"), "alone")
     # 2. nestings to depth 3
-    for i in range(30000 if thorough else 1500):
+    for i in range(30000 if thorough else 1000):
         cls = ALL_CLASSES[i % len(ALL_CLASSES)]
         depth = 2 + (i % 2)
         add(g.gen(depth, rng.random() < 0.5 and cls not in DocGen.ENDLESS_ONLY, "any", cls), "nested")
@@ -1121,11 +1121,11 @@ def check(run):
     # 4. the model, inside Coq
     mc = [c for c in cases if modelled(c.expr) and not c.status]
     if not thorough:
-        mc = mc[:2600]
+        mc = mc[:1800]
     gen = Gen(rng, run)
     extra = []
     classes = list(GENERATORS)
-    for i in range(4000 if thorough else 500):              # the registry generator: arguments outside the documented domain too
+    for i in range(4000 if thorough else 350):              # the registry generator: arguments outside the documented domain too
         e = gen.gen(1 + i % 3, rng.random() < 0.6, classes[i % len(classes)])
         extra.append(Case(e, [("next", 0)] * 24, "registry"))
     run_impl(run, extra)
